@@ -7,6 +7,7 @@ import (
 	"runtime/debug"
 	"sort"
 	"strings"
+	"syscall"
 )
 
 // Spec describes one simulated world completely; together with the code under
@@ -137,14 +138,16 @@ type World struct {
 	objSeq    map[string]int
 	pctPoints map[int]bool
 
-	chans  map[uintptr]*chanState
-	wgs    map[uintptr]*wgState
-	mus    map[uintptr]*muState
-	onces  map[uintptr]*onceState
-	pools  map[uintptr]*poolState
-	fs     *simFS
-	procs  []*Proc
-	OnExit func(w *World) // cmd mode: called when the world ends through Exit/deadlock/panic in a non-main task
+	chans      map[uintptr]*chanState
+	sigRegs    []*sigReg
+	sigIgnored map[syscall.Signal]bool
+	wgs        map[uintptr]*wgState
+	mus        map[uintptr]*muState
+	onces      map[uintptr]*onceState
+	pools      map[uintptr]*poolState
+	fs         *simFS
+	procs      []*Proc
+	OnExit     func(w *World) // cmd mode: called when the world ends through Exit/deadlock/panic in a non-main task
 }
 
 type stream struct {
